@@ -25,46 +25,58 @@ structure Facts where
   failOnInterrupt : Bool
   deriving DecidableEq, Repr
 
-/-- One run of bytes put on the wire by one write: `n` bytes of frame `m` starting at `off`. -/
-structure Seg where
-  m : Message
+/-- One run of bytes put on the wire by one write: `n` bytes of frame `m` starting at `off`.
+The model is generic in the type `F` of frames: all it needs is a frame's length (`len`); the bytes
+are only needed to read the stream off (`Conn.streamWith`).  The theorems instantiate `F := Message`,
+`len := fun m => m.toVec.length`; the driver uses frames whose body bytes are produced on demand, so
+that multi-MiB scripts run through the same `step`. -/
+structure Seg (F : Type) where
+  m : F
   off : Nat
   n : Nat
 
-def Seg.bytes (s : Seg) : Bytes := (s.m.toVec.drop s.off).take s.n
-
 /-- State of one connection's sending side. -/
-structure Conn where
+structure Conn (F : Type) where
   /-- everything put on the wire, in order -/
-  segs : List Seg
+  segs : List (Seg F)
   /-- per writer: its submitted, unfinished frame and how many of its bytes are on the wire -/
-  cur : Nat → Option (Message × Nat)
+  cur : Nat → Option (F × Nat)
   /-- the writer lock: the writer whose frame is in progress -/
   lock : Option Nat
   /-- the connection was failed (socket shut down / connection task ended): nothing more is written -/
   failed : Bool
   /-- ghost: frames whose last byte is on the wire, in completion order -/
-  done : List Message
+  done : List F
 
-def Conn.init : Conn := { segs := [], cur := fun _ => none, lock := none, failed := false, done := [] }
+def Conn.init {F : Type} : Conn F :=
+  { segs := [], cur := fun _ => none, lock := none, failed := false, done := [] }
 
-/-- The byte stream the peer receives. -/
-def Conn.stream (c : Conn) : Bytes := (c.segs.map Seg.bytes).flatten
+/-- The byte stream the peer receives, given how a frame's bytes are obtained. -/
+def Conn.streamWith {F : Type} (bytes : F → Bytes) (c : Conn F) : Bytes :=
+  (c.segs.map fun s => ((bytes s.m).drop s.off).take s.n).flatten
 
-inductive Ev where
-  | submit (w : Nat) (m : Message)
+def Seg.bytes (s : Seg Message) : Bytes := (s.m.toVec.drop s.off).take s.n
+
+/-- The byte stream the peer receives (frames are `Message`s). -/
+def Conn.stream (c : Conn Message) : Bytes := (c.segs.map Seg.bytes).flatten
+
+/-- Length of a `Message` frame on the wire. -/
+abbrev mlen (m : Message) : Nat := m.toVec.length
+
+inductive Ev (F : Type) where
+  | submit (w : Nat) (m : F)
   | progress (w : Nat) (k : Nat)
   | interrupt (w : Nat)
 
-def setCur (cur : Nat → Option (Message × Nat)) (w : Nat) (v : Option (Message × Nat)) :
-    Nat → Option (Message × Nat) :=
+def setCur {F : Type} (cur : Nat → Option (F × Nat)) (w : Nat) (v : Option (F × Nat)) :
+    Nat → Option (F × Nat) :=
   fun w' => if w' = w then v else cur w'
 
 /-- May writer `w` put bytes on the wire now? -/
-def canWrite (f : Facts) (c : Conn) (w : Nat) : Bool :=
+def canWrite {F : Type} (f : Facts) (c : Conn F) (w : Nat) : Bool :=
   !c.failed && (!f.exclusive || c.lock == none || c.lock == some w)
 
-def step (f : Facts) (c : Conn) : Ev → Conn
+def step {F : Type} (len : F → Nat) (f : Facts) (c : Conn F) : Ev F → Conn F
   | .submit w m =>
     match c.cur w with
     | some _ => c                       -- one call at a time per writer
@@ -74,10 +86,9 @@ def step (f : Facts) (c : Conn) : Ev → Conn
     | none => c
     | some (m, off) =>
       if canWrite f c w then
-        let len := m.toVec.length
-        let k' := min k (len - off)
+        let k' := min k (len m - off)
         let segs' := c.segs ++ [⟨m, off, k'⟩]
-        if off + k' = len then
+        if off + k' = len m then
           { c with segs := segs', cur := setCur c.cur w none, lock := none, done := c.done ++ [m] }
         else
           { c with segs := segs', cur := setCur c.cur w (some (m, off + k')), lock := some w }
@@ -91,14 +102,35 @@ def step (f : Facts) (c : Conn) : Ev → Conn
         lock := if c.lock = some w then none else c.lock
         failed := c.failed || (decide (off > 0) && f.failOnInterrupt) }
 
-def run (f : Facts) (evs : List Ev) (c : Conn) : Conn := evs.foldl (step f) c
+def run {F : Type} (len : F → Nat) (f : Facts) (evs : List (Ev F)) (c : Conn F) : Conn F :=
+  evs.foldl (step len f) c
 
-/-! ### summaries used by the line-protocol driver (no byte expansion needed) -/
+/-! ### summaries used by the line-protocol driver -/
 
-def Conn.wireLen (c : Conn) : Nat := (c.segs.map (·.n)).sum
+def Conn.wireLen {F : Type} (c : Conn F) : Nat := (c.segs.map (·.n)).sum
 
 /-- 64-bit FNV-1a of a byte list (the harness prints the same digest of the captured stream). -/
-def fnv1a (bs : Bytes) : Nat :=
-  bs.foldl (fun h b => ((h ^^^ b.toNat) * 0x100000001b3) % 2^64) 0xcbf29ce484222325
+def fnv1a (bs : Bytes) : UInt64 :=
+  bs.foldl (fun h b => (h ^^^ b.toUInt64) * 0x100000001b3) 0xcbf29ce484222325
+
+/-- Body pattern of the correspondence family: byte `i` of the body of the frame tagged `tag`. -/
+def patByte (tag i : Nat) : UInt8 := UInt8.ofNat ((tag * 131 + i + i / 251) % 256)
+
+def pat (tag len : Nat) : Bytes := (List.range len).map (patByte tag)
+
+/-- A frame of the correspondence family whose body is produced on demand: header and query bytes,
+tag and body length. -/
+structure LFrame where
+  hdrq : Bytes
+  tag : Nat
+  blen : Nat
+
+def LFrame.len (f : LFrame) : Nat := f.hdrq.length + f.blen
+def LFrame.bytes (f : LFrame) : Bytes := f.hdrq ++ pat f.tag f.blen
+
+/-- The frame `MessageBuilder` would build for (id, notify, query, body = pattern). -/
+def LFrame.of (id : Nat) (notify : Bool) (query : Bytes) (tag blen : Nat) : LFrame :=
+  let h := ((Builder.mk id notify 0 1 0 query []).build.header).patchLengths query.length blen
+  { hdrq := h.encode ++ query, tag := tag, blen := blen }
 
 end Repe.WD
